@@ -11,6 +11,9 @@ CONSTANTS
   DirAtStart = TRUE
   PersistMkdir = TRUE
   LoaderExact = FALSE
+  RefreshTemp = "leave"
+  Faults = {}
+  Cleanup = "temp"
 SPECIFICATION SpecR
 INVARIANTS ReloadsExactly
 PROPERTIES Terminates
